@@ -122,7 +122,11 @@ pub fn cmd_replay(args: &[String]) -> i32 {
 fn corrupt(rng: &mut Rng, src: &str) -> String {
     let mut toks: Vec<String> = src.split(' ').map(|s| s.to_string()).collect();
     let pos = rng.below(toks.len() + 1);
-    let bad = match rng.below(9) {
+    let bad = match rng.below(12) {
+        // text injected by a meta block: the failing token is inside it, the submitted source has text left to read
+        9 => "#( \"7 foo_unknown\" ~)".to_string(),
+        10 => "#( \"1 then 2\" ~)".to_string(),
+        11 => "#( \": zz 1\" ~) 2d".to_string(),
         0 => "foo_unknown".to_string(),
         1 => "2d".to_string(),
         2 => "then".to_string(),
@@ -382,6 +386,14 @@ pub fn cmd_meta_record(args: &[String]) -> i32 {
         }
         if e.contains("var ") || e.contains("emit") || e.contains(" big") || e.starts_with("big") || e.contains("little") {
             continue; // needs the heap: refused in meta mode by design
+        }
+        if e.contains("immediate") {
+            continue; // the property quantifies over programs without user-defined immediate words
+        }
+        if e.contains("#(") {
+            // a block inside the block under test shares its stack (same mode; pinned by test_meta_meta): it sees values
+            // the outer block has computed so far.  The enumerated part (MC_C11) judges nesting with its exact rule.
+            continue;
         }
         let vals = visible_stack(&xe);
         let mut lits: Vec<String> = vec![];
